@@ -253,6 +253,15 @@ func (pg *ProgGen) stmt(depth int) []mt.Stmt {
 	}
 	switch k {
 	case 0, 1:
+		if h := core.Hash64(fmt.Sprint(pg.nLoop, pg.Fors, pg.Ifs, depth), "set-null"); h%7 == 0 {
+			// a variable of the context is set to null and read: null is what it holds then (it prints as nothing and is
+			// falsy), whatever a global, an includer or a caller holds under that name; afterwards it gets its value back
+			name := []string{"str1", "str2", "str3"}[h/7%3]
+			if orig, ok := pg.Sc.Ctx[name].(string); ok {
+				return []mt.Stmt{mt.Set{Name: name, E: mt.Null()}, mt.T("<"), mt.P(mt.V(name)),
+					mt.If{Conds: []mt.Expr{mt.V(name)}, Bodies: [][]mt.Stmt{{mt.T("T")}}, HasElse: true, Else: []mt.Stmt{mt.T("N")}}, mt.T(">"), mt.Set{Name: name, E: mt.S(orig)}}
+			}
+		}
 		return []mt.Stmt{mt.T([]string{"x", " ", "\n", "<b>", "-", "é", "}", "%", "txt ", ";"}[r.Intn(10)])}
 	case 2:
 		// print something in scope
